@@ -30,6 +30,16 @@ def dearmour(x):
     return x
 
 
+RFC_TAG_EXT = {":user": "subaddress", ":detail": "subaddress", ":index": "index", ":last": "index",
+               ":anychild": "mime", ":type": "mime", ":subtype": "mime", ":contenttype": "mime", ":param": "mime",
+               ":importance": "enotify", ":options": "enotify", ":message": "enotify", ":lower": "variables",
+               ":upper": "variables", ":lowerfirst": "variables", ":upperfirst": "variables", ":quotewildcard": "variables",
+               ":length": "variables", ":list": "extlists", ":once": "include", ":optional": "include",
+               ":personal": "include", ":global": "include", ":fcc": "fcc", ":specialuse": "special-use"}
+RFC_TAG_RFC = {"subaddress": "RFC 5233", "index": "RFC 5260", "mime": "RFC 5703", "enotify": "RFC 5435", "variables": "RFC 5229",
+               "extlists": "RFC 6134", "include": "RFC 6609", "fcc": "RFC 8580", "special-use": "RFC 8579"}
+
+
 def tlc_judge(token_lists, devs, custom="<<>>", workers=1):
     """token_lists: list of token lists -> (list of outs per trace, tlc stats)"""
     os.makedirs(BUILD, exist_ok=True)
@@ -106,6 +116,15 @@ def judge_scripts(scripts, devs, custom="<<>>", setup=None, roundtrip=False):
         else:
             cnt["rej"] += 1
         failed = pengine.judge_obs(o, data, spans, len(toks), outs, lexnote=note, raw=True)
+        if o["cls"] == "ret" and o["verdict"] is True and not note:
+            # gating of constructs the command table does not know (C07): a tag that an RFC defines as part of an
+            # extension is accepted, and nothing in the script names that extension
+            strs = {v for k, v in toks if k == "str"}
+            for k, v in toks:
+                ext = RFC_TAG_EXT.get(v.lower()) if k == "tag" else None
+                if ext and ext not in strs:
+                    failed["C07"] = "accepted the tag %s (extension %s, %s) although the script does not require it" % (v, ext, RFC_TAG_RFC[ext])
+                    break
         if failed:
             expl = pengine.explain(outs, o, spans, data, failed, raw=True)
             recs.append({"text": data.decode("utf-8", "replace"), "failed": failed, "expl": expl,
